@@ -125,6 +125,7 @@ func (h *procHandle) Stop() error {
 type epRef struct {
 	Addr   int  `json:"addr"`
 	Backup bool `json:"backup,omitempty"`
+	State  int  `json:"state,omitempty"` // service.Endpoint_State: 0 UP, 1 DOWN, 2 UNKNOWN (the store and the processors keep the endpoint whatever it says)
 }
 
 type hop struct {
@@ -187,7 +188,7 @@ func mkEp(e epRef) *service.Endpoint {
 	if e.Backup {
 		t = service.Endpoint_BACKUP
 	}
-	return &service.Endpoint{Address: &common.Address{Ip: "10.1.1.1", Port: uint32(7000 + e.Addr)}, Type: t}
+	return &service.Endpoint{Address: &common.Address{Ip: "10.1.1.1", Port: uint32(7000 + e.Addr)}, Type: t, State: service.Endpoint_State(e.State)}
 }
 
 func epAddr(e epRef) string { return fmt.Sprintf("10.1.1.1:%d", 7000+e.Addr) }
@@ -572,7 +573,8 @@ func genEps(t *rapid.T, label string, max int) []epRef {
 	n := rapid.IntRange(0, max).Draw(t, label+".n")
 	var r []epRef
 	for i := 0; i < n; i++ {
-		r = append(r, epRef{Addr: rapid.IntRange(0, 5).Draw(t, label+".addr"), Backup: rapid.IntRange(0, 3).Draw(t, label+".backup") == 0})
+		r = append(r, epRef{Addr: rapid.IntRange(0, 5).Draw(t, label+".addr"), Backup: rapid.IntRange(0, 3).Draw(t, label+".backup") == 0,
+			State: rapid.SampledFrom([]int{0, 0, 0, 0, 1, 2}).Draw(t, label+".state")})
 	}
 	return r
 }
